@@ -65,7 +65,10 @@ def run(ctx):
     if ctx.quick:
         texts = [x for i, x in enumerate(texts) if i % 4 == ctx.seed % 4]
     extra = ["", " ", "#tag", "#a #b", "xyzzy", "buy milk", "call #mom tomorrow 8pm", "8", "8 8", "9-5", "tomorrow", "5.3.2020 9:00 #work",
-             "lunch friday 12-13", "q", "-", "2020", "12am", "at", "the", "morgen", "1", "31.12.", "in", "um"]
+             "lunch friday 12-13", "q", "-", "2020", "12am", "at", "the", "morgen", "1", "31.12.", "in", "um",
+             # dashes / separators at the edges leave empty words in the subject: both entry points must agree on it verbatim
+             "- lunch 8 pm", "8 pm lunch -", "-8 pm-", "– call mom tomorrow", "tomorrow 8pm -", "- - 8pm lunch - -", "lunch - 8pm",
+             "(lunch) 8pm", ", lunch, 8pm,", "lunch 8pm #a -", "- #a lunch 8pm"]
     texts += [(t, (2018, 3, 7, 12, 43)) for t in extra]
     for lab, t, D in G.rel_forms()[::5]:
         texts.append((t, (2020, 2, 29, 23, 59)))
@@ -78,7 +81,7 @@ def run(ctx):
                     continue
                 for rel in (1.0, 0.5, 0.1):
                     for scorer in ("shipped", "dummy", "random"):
-                        if ctx.quick and (latent + depth + int(rel * 10) + len(scorer) + len(t)) % 4:
+                        if ctx.quick and (latent + depth + int(rel * 10) + len(scorer) + len(t)) % 4 and not (t in extra and rel == 1.0 and depth == 10):
                             continue
                         cases.append({"text": t, "ts": ts, "latent": latent, "depth": depth, "rel": rel, "scorer": scorer,
                                       "seed": rnd.randrange(10 ** 6), "label": "opts", "form": "%s/d%d/l%d" % (scorer, depth, latent)})
